@@ -5,13 +5,13 @@ import os
 import sys
 
 sys.path.insert(0, os.path.dirname(os.path.abspath(__file__)))
-from props import PROPS, NOT_APPLICABLE, HOOK_COMMITS  # noqa: E402
+from props import PROPS, NOT_APPLICABLE, HOOK_COMMITS, READY  # noqa: E402
 
 VERIF = os.path.dirname(os.path.dirname(os.path.abspath(__file__)))
 ids = [json.loads(l)["id"] for l in open(os.path.join(VERIF, "properties.jsonl"))]
 checks = []
 for pid in ids:
-    if pid not in PROPS:
+    if pid not in PROPS or pid not in READY:
         continue
     p = PROPS[pid]
     checks.append(dict(
@@ -26,7 +26,7 @@ for pid in ids:
         technique=p.get("technique", "TLA+ spec model-checked with TLC; traces of the real code validated against the spec by TLC"),
     ))
 na = [dict(property_id=i, reason=NOT_APPLICABLE.get(i, "check not built yet in this session; planned (see DESIGN.md)"))
-      for i in ids if i not in PROPS]
+      for i in ids if i not in PROPS or i not in READY]
 m = dict(
     version=1,
     setup_cmd="cd /verif/harness && cp /repo/go.sum . && GOFLAGS=-mod=mod GOPROXY=off GOSUMDB=off GOTOOLCHAIN=local go build -tags verif -o /dev/null ./cmd/...",
